@@ -252,11 +252,12 @@ func (r *Runtime) builtinJSON_stringify(call FunctionCall) Value {
 			}
 		} else {
 			if s, ok := spaceValue.(String); ok {
-				str := s.String()
-				if len(str) > 10 {
-					ctx.gap = str[:10]
-				} else {
-					ctx.gap = str
+				if s.Length() > 10 { // code units, not UTF-8 bytes
+					s = s.Substring(0, 10)
+				}
+				ctx.gap = s.String()
+				if _, u := devirtualizeString(s); u != nil {
+					ctx.allAscii = false
 				}
 			}
 		}
